@@ -178,6 +178,10 @@ def r_who_release(ctx: Ctx, rule="R01.3"):
             ok, why = slot_balance(ctx, e.node.func)
             rep.ob(rule, "the pool slot is released only by _task_ending (or by the acquirer for a slot it still owns)", ok and ctx.in_pool(e.node.func), node=e.node,
                    detail=f"release in {e.node.func.short}: {why}")
+    for f in {e.node.func.qual: e.node.func for e in ctx.effects(fields=["_enough_room"], kinds=["acquire"]) if ctx.in_pool(e.node.func)}.values():
+        ok, why = slot_balance(ctx, f)
+        rep.ob(rule, "slot balance of the acquirer: every acquired slot is handed to exactly one created task, or given back if the start fails", ok, func=f,
+               construct=f"{f.name}: acquire .. create_task", detail=why)
     # exactly-one release per task over all edges of the wrapper
     pred = release_pred(ctx)
     ef = ctx.feasible()
@@ -210,7 +214,11 @@ def slot_balance(ctx: Ctx, f: FuncInfo):
                 handed = True
         return [(held, handed)]
 
-    ai = AbsInt(ctx.an, transfer)
+    def ef(a: Node, b: Node, lab: Label) -> bool:
+        # a cancellation cannot be delivered at a step that never really suspends (lemma L-LOCK)
+        return not (lab[0] == "c" and a.suspends and not ctx.effective(a))
+
+    ai = AbsInt(ctx.an, transfer, ef=ef)
     exits = ai.run(f, (0, False))
     for e in ai.events:
         bad.append(f"{e.node.where()}: {e.msg} (held={e.state[0]}, handed={e.state[1]}); path: " + " ".join(e.trace[-4:]))
@@ -218,6 +226,8 @@ def slot_balance(ctx: Ctx, f: FuncInfo):
         for held, handed in sts:
             if k[0] == "ret" and not (held == 1 and handed):
                 bad.append(f"normal return with held={held}, handed={handed}")
+            if k[0] != "ret" and held >= 1 and not handed:
+                bad.append(f"a start that fails with {k[1][0].rpartition('.')[2]} keeps the slot it acquired (held={held}, no task created): the slot is lost")
     return (not bad), ("; ".join(bad) if bad else "slot balance holds")
 
 
